@@ -81,7 +81,7 @@ JoinPool(p) ==
 
 SectionPool(p) == LET s1 == Sep1(p.delim) IN
   IF "jspool" \in DOMAIN p /\ p.jspool
-  THEN {HeaderL(E, <<83>>, E), HeaderL(E, <<84>>, E)} \cup {EntryL(E, a, s1, x, FALSE, E, E, E) : x \in {v, w, E}} \cup {EntryL(E, b, s1, v, FALSE, E, E, E)}
+  THEN {HeaderL(E, <<83>>, E), HeaderL(E, <<84>>, E)} \cup {EntryL(E, a, s1, x, FALSE, E, E, E) : x \in {v, w, E}}
   ELSE
   {HeaderL(E, <<83>>, E), HeaderL(E, <<84>>, E)} \cup {EntryL(E, k, s1, v, FALSE, E, E, E) : k \in {a, b, cc}}
 IsSPool(p) == "spool" \in DOMAIN p /\ p.spool
